@@ -110,10 +110,9 @@ def cases(kind, tier, seed):
                 std = [s for f, s in fam if f in ('single', 'single-nonhermitian', 'all-groups-complex')]
                 for a, b in itertools.product(std, std if (L == 1 or not q) else std[:2] + std[-2:]):
                     yield dict(spec1=a, spec2=b, seed=seed)
-                for a, b in itertools.product(std[:2] + std[-1:], std[-3:-1]):  # unknown / infinite range of one or both operands
+                for a, b in itertools.product(std[:2] + std[-1:], std[-3:-1]):  # default window; known / unknown / infinite range of the operands
                     for m1, m2 in itertools.product((None, 'None', 'inf'), repeat=2):
-                        if m1 or m2:
-                            yield dict(spec1=dict(a, **({'max_range': m1} if m1 else {})), spec2=dict(b, **({'max_range': m2} if m2 else {})), seed=seed, default_window=True)
+                        yield dict(spec1=dict(a, **({'max_range': m1} if m1 else {})), spec2=dict(b, **({'max_range': m2} if m2 else {})), seed=seed, default_window=True)
     elif kind == 'partition':
         for ci, chain in enumerate(chains(tier)):
             todo = [(L, 'finite', None) for L in lengths(chain, tier, (3, 4), (2, 3, 4, 5))] + [(L, 'infinite', reach) for L, reach in (INF_CELLS[:2] if q else INF_CELLS)]
